@@ -2,6 +2,14 @@
 
 package cache
 
+import (
+	"time"
+
+	"github.com/vicanso/pike/store"
+)
+
+var errStoreNotFound = store.ErrNotFound
+
 // Entry-level concurrent system: N requests on one cache entry, each calling the real
 // Get() and then, when it is the fetcher, Cacheable()/HitForPass() with an arbitrary outcome.
 // The scheduler, every clock reading and every outcome are solver variables.
@@ -18,7 +26,6 @@ func bmcRequest(hc *httpCache, name string) {
 	case StatusFetching:
 		verifAtomic(func() {
 			ghostInflight++
-			ghostFetches++
 			verifAssert("C01.at-most-one-fetch-in-flight", ghostInflight <= 1)
 		})
 		verifAssert("C02.fetcher-gets-no-response", resp == nil)
@@ -37,7 +44,7 @@ func bmcRequest(hc *httpCache, name string) {
 	case StatusHitForPass:
 		verifReach("bmc.pass")
 		verifAssert("C07.pass-carries-no-response", resp == nil)
-		verifAtomic(func() { ghostPasses++ })
+
 	default:
 		// Get() only ever reports fetching, hit or hit-for-pass
 		verifAssert("C01.status-is-decided", false)
@@ -46,6 +53,7 @@ func bmcRequest(hc *httpCache, name string) {
 
 func bmcEntrySetup() *httpCache {
 	ghostClockMax = 64
+	ghostNoReadCount = true
 	ghostTTL = verifInt("ttl")
 	verifAssume(ghostTTL >= 1)
 	verifAssume(ghostTTL < 32)
@@ -70,5 +78,74 @@ func Harness_BMC_entry2() {
 	hc := bmcEntrySetup()
 	verifGo("r1", func() { bmcRequest(hc, "r1") })
 	verifGo("r2", func() { bmcRequest(hc, "r2") })
+	verifBMC()
+}
+
+// ---- with a persistent store ----
+
+// In the store-backed BMC system the bytes written to the store are abstract (the record format is
+// decided by C08/C09): encoding an entry does not dereference the published response.
+var ghostAbstractBytes bool
+
+//verif:hook (*github.com/vicanso/pike/cache.httpCache).Bytes
+func verifHook_httpCacheBytes(hc *httpCache) ([]byte, error) {
+	if ghostAbstractBytes {
+		return []byte{1}, nil
+	}
+	return hc.Bytes()
+}
+
+// bmcStore answers Get with a fixed record chosen by the harness (immutable bytes) or not-found;
+// Set and Delete only count.  Calls are atomic environment steps.
+type bmcStore struct {
+	record []byte
+	sets   int
+}
+
+func (s *bmcStore) Get(key []byte) (data []byte, err error) {
+	verifAtomic(func() {
+		if s.record == nil {
+			err = errStoreNotFound
+		} else {
+			data = s.record
+		}
+	})
+	return
+}
+
+func (s *bmcStore) Set(key []byte, data []byte, ttl time.Duration) error {
+	verifAtomic(func() { s.sets++ })
+	return nil
+}
+func (s *bmcStore) Delete(key []byte) error { return nil }
+func (s *bmcStore) Close() error            { return nil }
+
+// three requests on a key whose store record is an old, already expired hit (a store with lazy TTL)
+func Harness_BMC_entry_store3() {
+	bmcEntryStore(3)
+}
+
+func Harness_BMC_entry_store2() {
+	bmcEntryStore(2)
+}
+
+func bmcEntryStore(n int) {
+	verifSeqBound(n - 1)
+	ghostClockMax = 64
+	ghostNoReadCount = true
+	ghostTTL = verifInt("ttl")
+	verifAssume(ghostTTL >= 1)
+	verifAssume(ghostTTL < 32)
+	ghostHFP = 5
+	old := &httpCache{status: StatusHit, response: &HTTPResponse{StatusCode: 200}, createdAt: -20, expiredAt: -10}
+	rec, _ := old.Bytes()
+	ghostAbstractBytes = true
+	st := &bmcStore{record: rec}
+	hc := NewHTTPStoreCache([]byte("GET h /"), st)
+	verifGo("r1", func() { bmcRequest(hc, "r1") })
+	verifGo("r2", func() { bmcRequest(hc, "r2") })
+	if n > 2 {
+		verifGo("r3", func() { bmcRequest(hc, "r3") })
+	}
 	verifBMC()
 }
